@@ -835,6 +835,7 @@ def r2(ctx):
         for y in ys)
     ctx.ob("R2", "dot _product emits only for tags whose port map is complete (==)", ok, func=f, node=(guards[0].ast if guards else f.node),
            instance="dot._product:guard", message="dot _product emits without `len(self._token_values[tag]) == len(self.items)`: incomplete combinations")
+    _dot_scan_complete(ctx, f, g, outer[0], [t.id for t in guards])
     # consumption
     inner = []
     for lp in [n for n in f.body_nodes() if isinstance(n, ast.For)]:
